@@ -201,6 +201,45 @@ theorem C10_holds_meaning (me : Bytes) (evs : List Ev) (tail : Tail) (ps : List 
   obtain ⟨⟨⟨h1, h2⟩, -⟩, -⟩ := h
   exact ⟨h1, checkReads_prefix _ _ _ _ _ h2⟩
 
+theorem expected_writes_closeWrite (me : Bytes) (ups : List Bytes) :
+    expected me (ups.map Ev.write ++ [.closeWrite]) = (ups.flatten, true) := by
+  induction ups with
+  | nil => rfl
+  | cons u us ih => simp [expected, ih]
+
+/-- **Forwarding (partial)**: in the model of `runBidirectionalForward` over a stream, for every way
+`ups` the upload is handed to `Write`, the peer receives a prefix of the application's bytes, and when
+both ends have seen end-of-stream (`done`) the peer received all of them and the application received
+all of the answer.
+Full statement (not proved): `holdsFw ups.flatten down (runForward me ups down) = true`, i.e. `done`
+is always reached with the read counts `runForward` uses — it needs a progress count over
+`checkReads`; the goroutine structure of the forwarder itself (two `io.Copy`, `closeAll`) is observed
+by the harness (`fw` cases), not modelled. -/
+theorem C10_forward_partial (me : Bytes) (ups : List Bytes) (down : Bytes) :
+    (runForward me ups down).up <+: ups.flatten ∧
+    ((runForward me ups down).done = true →
+      (runForward me ups down).up = ups.flatten ∧ (runForward me ups down).down = down) := by
+  have hu := C10_stream_main me (ups.map Ev.write ++ [.closeWrite])
+    (by intro e he
+        rcases List.mem_append.mp he with he | he
+        · obtain ⟨u, -, rfl⟩ := List.mem_map.mp he; rfl
+        · simp only [List.mem_singleton] at he; subst he; rfl)
+    (fun b => [b]) (by simp) .eof false
+    (List.replicate (ups.length + ups.flatten.length / crossnode.MaxFrameSize + 2) crossnode.MaxFrameSize)
+  have hd := C10_stream_main me [.write down, .close]
+    (by intro e he; simp only [List.mem_cons, List.not_mem_nil, or_false] at he; rcases he with rfl | rfl <;> rfl)
+    (fun b => [b]) (by simp) .eof false
+    (List.replicate (down.length / crossnode.MaxFrameSize + 3) crossnode.MaxFrameSize)
+  obtain ⟨-, u2, u3⟩ := C10_holds_meaning _ _ _ _ _ hu
+  obtain ⟨-, -, d3⟩ := C10_holds_meaning _ _ _ _ _ hd
+  rw [expected_writes_closeWrite] at u2 u3
+  have hde : (expected me [.write down, .close]).1 = down := by simp [expected]
+  rw [hde] at d3
+  refine ⟨u2, ?_⟩
+  intro hdone
+  simp only [runForward, Bool.and_eq_true, List.contains_iff_mem] at hdone
+  exact ⟨u3 (Or.inl hdone.1), d3 (Or.inl hdone.2)⟩
+
 /-- The chunking function the driver uses is a chunking (so `C10_stream_main` covers every case line). -/
 theorem C10_chunkBy_flatten (ns : List Nat) (bs : Bytes) : (Drv.chunkBy ns bs).flatten = bs := by
   induction ns generalizing bs with
@@ -246,6 +285,9 @@ example :
       [.data [1, 2], .data [3], .data [4], .eof, .eof] := by decide +kernel
 
 example : (⟨tunnelIDFromString idA, crossnode.FrameTypeData, [1, 2, 3]⟩ : Frame).WF := by decide +kernel
+
+/-- The forwarding model reaches `done` and satisfies `holdsFw` on a concrete run (a test). -/
+example : holdsFw [1, 2, 3] [4, 5] (runForward idA [[1], [2, 3]] [4, 5]) = true := by decide +kernel
 
 /-- A hostile header (length `0xFFFFFFFF`) is refused with only the header allocated (a test). -/
 example :
